@@ -340,6 +340,242 @@ func handsOverModuleCode(p *core.Prog, c ssa.CallInstruction) bool {
 	return false
 }
 
+// isGreaterFact: the fact says that one of the given semver.Compare calls returned "greater" (> 0 or >= 0 true, < 0 or
+// <= 0 false).
+func isGreaterFact(cv ssa.Value, v bool, compares []*ssa.Call) bool {
+	b, ok := cv.(*ssa.BinOp)
+	if !ok {
+		return false
+	}
+	isCmp := false
+	for _, c := range compares {
+		if b.X == ssa.Value(c) {
+			isCmp = true
+		}
+	}
+	zero, okz := core.ConstInt(b.Y)
+	if !isCmp || !okz || zero != 0 {
+		return false
+	}
+	switch b.Op {
+	case token.GTR, token.GEQ:
+		return v
+	case token.LSS, token.LEQ:
+		return !v
+	}
+	return false
+}
+
+// checkRelativeQueriesNeverLower implements R11.9.
+func checkRelativeQueriesNeverLower(p *core.Prog, r *core.Result, rule string) {
+	isVersionList := func(t types.Type) bool {
+		sl, ok := t.Underlying().(*types.Slice)
+		return ok && strings.HasSuffix(sl.Elem().String(), "mod/module.Version")
+	}
+	nFns := 0
+	for _, fn := range p.ModuleFuncs() {
+		if fn.Pkg == nil || fn.Pkg.Pkg.Path() != pkgMvs || fn.Parent() != nil || recvNamed(fn) != "querier" {
+			continue
+		}
+		var bl *ssa.Parameter
+		for _, prm := range fn.Params {
+			if isVersionList(prm.Type()) {
+				bl = prm
+			}
+		}
+		if bl == nil || !strings.HasPrefix(fn.Name(), "resolve") {
+			continue
+		}
+		// only the resolvers that read the current version out of the list (not the dispatcher that passes it on)
+		reads := false
+		for _, ref := range *bl.Referrers() {
+			switch ref.(type) {
+			case *ssa.IndexAddr, *ssa.Range, *ssa.MakeClosure, *ssa.Store:
+				reads = true
+			case *ssa.Call:
+				if c := ref.(*ssa.Call); core.Callee(c) != nil && !core.InModule(core.Callee(c)) {
+					reads = true // slices.IndexFunc(buildList, …)
+				}
+			}
+		}
+		if !reads {
+			continue
+		}
+		nFns++
+		hosts := core.WithAnons(fn)
+		var fromList func(v ssa.Value, depth int) bool
+		fromList = func(v ssa.Value, depth int) bool {
+			if depth > 4 {
+				return false
+			}
+			found := false
+			for x := range core.BackwardSlice(v, core.SliceOpts{Stores: true}) {
+				switch y := x.(type) {
+				case *ssa.Parameter:
+					if y == bl {
+						found = true
+					}
+				case *ssa.FreeVar:
+					if b := core.Binding(y); b != nil {
+						if al, ok := b.(*ssa.Alloc); ok {
+							for _, h := range hosts {
+								core.Instrs(h, func(in ssa.Instruction) {
+									if st, ok := in.(*ssa.Store); ok && st.Addr == ssa.Value(al) && fromList(st.Val, depth+1) {
+										found = true
+									}
+								})
+							}
+						} else if fromList(b, depth+1) {
+							found = true
+						}
+					}
+				}
+			}
+			return found
+		}
+		var compares []*ssa.Call
+		for _, h := range hosts {
+			for _, c := range core.Calls(h) {
+				call, ok := c.(*ssa.Call)
+				if !ok || !core.IsCallTo(c, "golang.org/x/mod/semver", "Compare") {
+					continue
+				}
+				a, b := fromList(call.Call.Args[0], 0), fromList(call.Call.Args[1], 0)
+				if a != b {
+					compares = append(compares, call)
+				}
+			}
+		}
+		r.Check(len(compares) > 0, rule, fname(fn)+"#compares-with-current", p.Pos(fn.Pos()), "the candidate is compared with the current version (semver.Compare)", "nothing compares the candidate with the version the project is currently at: the query can answer with an older version - for a project on a pseudo-version ahead of the newest tag of its series, `get x@patch` resolves to that older tag and is carried out as a downgrade that lowers the projects requiring the pseudo-version")
+		// a candidate returned from inside a scan of the repository's versions: only where the comparison says "greater"
+		k := 0
+		for _, h := range hosts {
+			if h == fn || !strings.Contains(h.Synthetic, "range-over-func") {
+				continue
+			}
+			core.Instrs(h, func(in ssa.Instruction) {
+				st, ok := in.(*ssa.Store)
+				if !ok || !strings.HasSuffix(st.Val.Type().String(), "mod/module.Version") {
+					return
+				}
+				if _, isFree := st.Addr.(*ssa.FreeVar); !isFree || fromList(st.Val, 0) {
+					return
+				}
+				k++
+				greater := false
+				for _, xf := range xfacts(p, st) {
+					if isGreaterFact(xf.Cond, xf.Val, compares) {
+						greater = true
+					}
+				}
+				r.Check(greater, rule, fmt.Sprintf("%s#candidate-from-scan-%d", fname(fn), k), p.InstrPos(st), "a version taken from the repository's list is returned only where it compared greater than the current one", "a version taken from the repository's list is returned without having compared greater than the current version")
+			})
+		}
+	}
+	r.Floor(rule, nFns, 2, "resolvers that answer relative to the current version")
+}
+
+// checkCacheEntryAtomic implements R10.11 (who may be handed a cache path).
+func checkCacheEntryAtomic(p *core.Prog, r *core.Result, rule string) {
+	depthFC := 0
+	var fromCache func(v ssa.Value) bool
+	fromCache = func(v ssa.Value) bool {
+		return core.DependsOn(v, core.SliceOpts{Stores: true, ThroughCall: func(c *ssa.Call) bool {
+			if c.Call.IsInvoke() {
+				return false
+			}
+			h := core.Callee(c)
+			if h == nil {
+				return false
+			}
+			switch core.CalleeKey(h) {
+			case "path/filepath.Join", "fmt.Sprintf", "path/filepath.Dir", "path/filepath.Clean":
+				return true
+			}
+			return false
+		}}, func(x ssa.Value) bool {
+			if core.LoadOfField(x, pkgMvs, "Resolver", "cacheDir") {
+				return true
+			}
+			// a helper that is handed the cache path (downloadProject(ctx, p, cacheDir))
+			if prm, ok := x.(*ssa.Parameter); ok && depthFC < 2 {
+				h := prm.Parent()
+				if i := paramIndex(h, prm); i >= 0 && h.Pkg != nil && h.Pkg.Pkg.Path() == pkgMvs {
+					for _, site := range p.StaticCallers(h) {
+						if i < len(site.Common().Args) {
+							depthFC++
+							hit := fromCache(site.Common().Args[i])
+							depthFC--
+							if hit {
+								return true
+							}
+						}
+					}
+				}
+			}
+			return false
+		})
+	}
+	n, nRename := 0, 0
+	for _, fn := range p.ModuleFuncs() {
+		top := fn
+		for top.Parent() != nil {
+			top = top.Parent()
+		}
+		if top.Pkg == nil || top.Pkg.Pkg.Path() != pkgMvs {
+			continue
+		}
+		k := 0
+		for _, c := range core.Calls(fn) {
+			cc := c.Common()
+			cal := core.Callee(c)
+			key := ""
+			if cal != nil {
+				key = core.CalleeKey(cal)
+			} else if cc.IsInvoke() {
+				key = "invoke " + cc.Method.Name()
+			}
+			switch key {
+			case "path/filepath.Join", "fmt.Sprintf", "path/filepath.Dir", "path/filepath.Clean":
+				continue // building the path
+			}
+			for i, a := range cc.Args {
+				if _, isStr := a.Type().Underlying().(*types.Basic); !isStr || !fromCache(a) {
+					continue
+				}
+				n++
+				k++
+				ok := false
+				switch key {
+				case "os.Stat", "os.Lstat":
+					ok = true
+				case "os.MkdirAll":
+					// only the parent directory
+					ok = core.DependsOn(a, core.SliceOpts{Stores: true}, func(x ssa.Value) bool {
+						cx, isC := x.(*ssa.Call)
+						return isC && core.IsCallTo(cx, "path/filepath", "Dir")
+					})
+				case "os.Rename":
+					ok = i == 1
+					if ok {
+						nRename++
+					}
+				}
+				if cal != nil && core.InModule(cal) {
+					ok = true // a helper of the module: its own uses of the parameter are judged there... only if it is in this package
+					if cal.Pkg == nil || cal.Pkg.Pkg.Path() != pkgMvs {
+						ok = false
+					}
+				}
+				construct := fmt.Sprintf("%s#cache-path-%d:%s", fname(fn), k, key)
+				r.Check(ok, rule, construct, p.InstrPos(c.(ssa.Instruction)), "a cache path is handed to "+key+" (existence test, parent directory, or rename destination)", "a path below the download cache is handed to "+key+": the entry is filled in place instead of being renamed into place, so an interrupted download or a second process sees a half-written directory that the cache-hit test (os.Stat) takes for a complete entry - the project is then resolved from a partial tree (a left-over .dawnconfig before dawn.toml has arrived)")
+			}
+		}
+	}
+	r.Floor(rule, n, 3, "uses of paths below the download cache")
+	r.Floor(rule, nRename, 1, "renames into the download cache")
+}
+
 // checkConfigFallback implements R10.10.
 func checkConfigFallback(p *core.Prog, r *core.Result, rule string) {
 	fileAccess := map[string]bool{"os.Open": true, "os.OpenFile": true, "os.ReadFile": true, "os.Stat": true, "os.Lstat": true, "os.ReadDir": true, "os.Readlink": true}
@@ -871,6 +1107,7 @@ func runC10(p *core.Prog, r *core.Result) {
 		"R10.8 the versions a repository lists carry each tag's own version string, verbatim: between the tag name and Version.Version there is nothing but taking the last path element (no canonicalisation or other many-to-one rewriting) - tag names are unique, so at most one listed entry per tag object equals a requested path@version and the revision a requirement resolves to does not depend on the order of the remote's ref listing",
 		"R10.9 the clone behind a repository object is used by one goroutine at a time: every operation on the go-git repository held by a vcs repository type, on its work tree (Checkout) and every copy of its work-tree directory happens while a mutex of that object is held (the constructor excepted: the object is not shared yet) - the resolver shares one repository object between all fetches of a project and the MVS library loads requirements in parallel, so without the lock 'check out A, check out B, copy, copy' stores B's tree in the download cache under A's name",
 		"R10.10 which configuration file a project (the root or a requirement) is read from does not depend on the download cache: where a fallback from dawn.toml to .dawnconfig is decided by a 'does not exist' test on an error, that error comes from accessing that one file only (an os call, or a module function whose static closure contains a single file access) - not from a whole load that also computes the build list, whose wrapped not-exist errors (a cache entry without a configuration file) would read as 'dawn.toml is missing' and silently configure the project from a left-over .dawnconfig",
+		"R10.11 an entry of the download cache appears all at once: a path below Resolver.cacheDir is handed only to os.Stat (is it cached?), to os.MkdirAll through filepath.Dir (the parent), and to os.Rename as the destination of a staged download - never to the fetch itself or to any other call that fills it piecemeal; the cache-hit test is the existence of the directory, so a half-written entry (an interrupted download, a second process looking on) would count as complete and be resolved from whatever configuration file happens to be there already",
 		"R10.5 a fetched project's summary lists every requirement of its configuration, one to one, in sorted name order",
 	}
 	r.NotDecided = []string{"that the result is the minimal-version-selection solution for all graphs (the algorithm lives in github.com/pgavlin/mvs, outside the repository; behavioural)", "network/VCS behaviour behind the resolver"}
@@ -1362,6 +1599,9 @@ func runC10(p *core.Prog, r *core.Result) {
 		}
 	}
 
+	// ---- R10.11 cache entries are created by rename only
+	checkCacheEntryAtomic(p, r, "R10.11")
+
 	// ---- R10.10 the fallback between configuration file names is decided by that file alone
 	checkConfigFallback(p, r, "R10.10")
 
@@ -1490,6 +1730,7 @@ func runC11(p *core.Prog, r *core.Result) {
 		"R11.5 get decides between upgrade, downgrade and no-op by comparing the requested version with the version selected in the build list, not with the root's own requirement entry",
 		"R11.4 requesting the version that is already selected returns the root's requirements unchanged",
 		"R11.8 a ref resolves against its closest tagged ancestor: in resolveRefQuery the walk over the revision's history (newest first) can be left - the yield function of the range over History() has a `return false` - and the assignment of the matching version is followed by leaving its loop with an exit that goes beyond the enclosing search; otherwise every older tagged ancestor overwrites the match, the pseudo-version is based on the oldest release, and an upgrade by ref lowers the project",
+		"R11.9 the queries that answer relative to the current version (patch, upgrade: the resolvers that are handed the build list) never answer below it: each compares its candidate with the current version through semver.Compare, and a candidate taken from the repository's version list is returned only on the edge where that comparison says it is greater - a project that sits on a pseudo-version ahead of the newest tag of its series would otherwise be 'upgraded' to that older tag, which get then carries out as a downgrade that lowers its dependents",
 		"R11.7 the version lists and summaries that upgrade, downgrade and tidy consult come from resolver caches keyed by the whole of what the cached value was computed from (two major versions of one project path do not share an entry): an edit cannot be answered with another project's versions (rule shared with C10 R10.1)",
 	}
 	r.NotDecided = []string{"build-list equalities after tidy/upgrade/downgrade (algorithm in a dependency; behavioural)", "query resolution against tagged versions (ranges, latest, patch)"}
@@ -1498,6 +1739,9 @@ func runC11(p *core.Prog, r *core.Result) {
 
 	// ---- R11.8
 	checkClosestTaggedAncestor(p, r, "R11.8")
+
+	// ---- R11.9
+	checkRelativeQueriesNeverLower(p, r, "R11.9")
 	// ---- R11.1
 	impls := 0
 	for _, fn := range p.ModuleFuncs() {
